@@ -431,8 +431,11 @@ def run_scenario(sc):
                 extra = "response"
             nle = len(leases) - (1 if extra == "response" else 0)
             for r in leases:
-                r.read()
-                r.release_conn()
+                try:
+                    r.read()
+                    r.release_conn()
+                except Exception as ex:      # giving a probe lease back must not fail either
+                    extra = "giveback-" + type(ex).__name__
         else:
             nle = pool.pool.qsize()
         leases = None
